@@ -67,6 +67,26 @@ class Universe:
                 self.typed = (tuple, str)
                 # (the last one has the key of a legitimate item: it may arrive as a *replacement* under an existing key)
                 self.bad = [("wrong_key_type", lambda: (5, 0)), ("wrong_item_type", lambda: ["q", 0]), ("wrong_item_type_existing_key", lambda: ["a", 0])]
+        elif name == "objattr":
+            # plain objects keyed by a function that reads an attribute: handed a bare key it raises AttributeError
+
+            class Obj:
+                def __init__(self, name, p):
+                    self.name, self.p = name, p
+
+                def __eq__(self, other):
+                    return isinstance(other, Obj) and (self.name, self.p) == (other.name, other.p)
+
+                __hash__ = None
+
+                def __repr__(self):
+                    return f"Obj({self.name!r}, {self.p})"
+
+            self.specs = [(k, p) for k in "abc" for p in (0, 1)]
+            self.make = lambda s: Obj(s[0], s[1])
+            self.kf = lambda it: it.name
+            self.keyfn = lambda it: it.name
+            self.hashable_items = False
         elif name == "listitems":
             self.specs = [(k, p) for k in "abc" for p in (0, 1)]
             self.make = lambda s: [s[0], s[1]]
@@ -112,7 +132,7 @@ class Universe:
         return cls(list(items), key=self.keyfn, enforce_item_equivalence=flag)
 
 
-UNIVERSES = ["selfstr", "tuple", "listitems", "spec", "typed_tuple", "typed_spec", "modint"]
+UNIVERSES = ["selfstr", "tuple", "listitems", "spec", "typed_tuple", "typed_spec", "modint", "objattr"]
 
 
 class Raise(Exception):
@@ -207,8 +227,9 @@ def model_apply(U, M, name, args):
         base = name.lstrip("i") if name.startswith("i") and name != "iand" else name
         base = {"ior": "or", "iand": "and", "isub": "sub", "ixor": "xor"}.get(name, name)
         conflict = [k for k in O if k in M and not same(M[k], O[k])]
-        if okind == "set" and base in ("and", "sub", "xor") and not _set_operand_agrees(M, O, items):
+        if okind == "set" and base == "and" and not _set_operand_agrees(M, O, items):
             return UNSPEC  # built-in set membership is by item (hash/eq), not by key: both readings are defensible
+        # (`-` and `^` are `-=` / `^=` on a copy: by key, whatever kind of set the other operand is)
         if U.flag and conflict:
             return UNSPEC  # flag + unequal payload under a common key
         if base == "or":
@@ -416,6 +437,8 @@ def operand_choices(U):
     out = [("kset", c) for c in combos]
     if U.hashable_items:
         out += [("set", c) for c in combos]
+    else:
+        out.append(("set", ()))  # the empty built-in set is a legitimate operand whatever the items are
     return out
 
 
